@@ -165,8 +165,39 @@ Record case := {
   c_eq : list equery;
   c_sq : list squery;
   c_disk : option (list key * list nat);           (* columns of the file read back, tokens written as empty *)
-  c_split : option nat                             (* Some n: run interrupted after n deliveries and resumed *)
+  c_split : option nat;                            (* Some n: run interrupted after n deliveries and resumed *)
+  (* whole run for the Tuner.run model: old table, scheduler answers, steps of the loop, does stop_all raise,
+     did the real run() raise, observed order of the final store (0) and stop_all (1) *)
+  c_run : option (option (list dict) * list answer * list step * bool * bool * list nat)
 }.
+
+Definition ev_same (a b : event) : bool :=
+  Z.eqb (ev_trial a) (ev_trial b) && dict_equiv (ev_result a) (ev_result b) &&
+  Nat.eqb (ev_decision a) (ev_decision b) && Nat.eqb (ev_status a) (ev_status b) &&
+  cfg_equiv (ev_config a) (ev_config b).
+Definition upd_same (a b : list Z * list (Z * dict)) : bool :=
+  list_eqb Z.eqb (fst a) (fst b) &&
+  list_eqb (fun x y => Z.eqb (fst x) (fst y) && dict_equiv (snd x) (snd y)) (snd a) (snd b).
+Definition end_order (tr : list fin_step) : list nat :=
+  flat_map (fun f => match f with FCallbacksEnd => [0%nat] | FStopAll => [1%nat] | _ => [] end) tr.
+Definition chk_run (c : case) : bool :=
+  match c_run c with
+  | None => true
+  | Some (old, answers, steps, stop_fails, impl_raised, impl_order) =>
+      let fails := fun f => match f with FStopAll => stop_fails | _ => false end in
+      let '(st, raised, tr) := tuner_run (c_wallclock c) old answers steps fails in
+      list_eqb ev_same (run_delivered answers steps) (c_events c) &&
+      list_eqb upd_same (run_history answers steps) (c_history c) &&
+      Nat.eqb (length (cb_results (rs_cb st))) (length (c_rows c)) &&
+      match cb_disk (rs_cb st), c_disk c with
+      | Some d, Some _ => Nat.eqb (length d) (length (c_table c))
+      | Some d, None => Nat.eqb (length d) 0        (* an empty file cannot be read back *)
+      | None, _ => false
+      end &&
+      Bool.eqb raised impl_raised && list_eqb Nat.eqb (end_order tr) impl_order &&
+      stats_match (c_tol c) (ts_overall (rs_ts st)) (c_overall c) &&
+      trials_match (c_tol c) (ts_trials (rs_ts st)) (c_trials c)
+  end.
 
 (* model of to_csv / read_csv with the text level replaced by the identity: which cells hold a value, and the
    columns in order, must be what was read back from disk (values are compared by the Python checker, with
@@ -206,11 +237,11 @@ Definition chk_summary (c : case) : bool := forallb (chk_squery (ts_run (c_histo
 Definition chk_exp (c : case) : bool := forallb (chk_equery (c_table c)) (c_eq c).
 
 (* 0 = all fine; otherwise bit mask of failing parts: 1 rows, 2 statistics, 4 best (tuner), 8 best (experiment),
-   16 final summary, 32 csv columns / cells with a value *)
+   16 final summary, 32 csv columns / cells with a value, 64 Tuner.run model *)
 Definition chk_mask (c : case) : Z :=
   ((if chk_rows c then 0 else 1) + (if chk_stats c then 0 else 2) +
    (if chk_best c then 0 else 4) + (if chk_exp c then 0 else 8) + (if chk_summary c then 0 else 16) +
-   (if chk_csv c then 0 else 32))%Z.
+   (if chk_csv c then 0 else 32) + (if chk_run c then 0 else 64))%Z.
 Definition chk_case (c : case) : bool := Z.eqb (chk_mask c) 0.
 """
 
@@ -602,6 +633,8 @@ def make_recording_callback():
 
         def store_results(self):
             self.store_sizes.append(len(self.results))
+            if getattr(self, "order", None) is not None:
+                self.order.append("store")
             super().store_results()
 
     return RecordingStore
@@ -738,8 +771,29 @@ def exp_queries(er, names):
     return out
 
 
+def run_model_term(tb, rm):
+    def item(t, res, status, cfg):
+        return ("{| hi_trial := %s; hi_result := %s; hi_status := %s; hi_config := %s; hi_clock := 0; "
+                "hi_fire := false |}" % (zlit(t), dict_term(tb, res), natlit(tb.tok(status)), cfg_term(tb, cfg)))
+    steps = []
+    for st in rm["steps"]:
+        if st[0] == "batch":
+            _, status, results = st
+            steps.append("Batch %s %s" % (lst([zlit(t) for t in status]),
+                                          lst([item(t, r, status[t][0], status[t][1]) for t, r in results])))
+        elif st[0] == "started":
+            steps.append("Started %s" % zlit(st[1]))
+        else:
+            steps.append("Fault")
+    answers = lst(["{| an_decision := %s; an_stops := %s |}" % (natlit(tb.tok(d)), blit(d in ("STOP", "PAUSE")))
+                   for d in rm["decisions"]])
+    return "(%s, %s, %s, %s, %s, %s)" % (
+        optlit(rm["old"], lambda rows: lst([dict_term(tb, r) for r in rows])), answers, lst(steps),
+        blit(rm["stop_fails"]), blit(rm["raised"]), lst([natlit(x) for x in rm["end_order"]]))
+
+
 def build_case(tb, wallclock, events, rows, history, overall, per_trial, backend_cfgs, names, mode, bq, tq, table, eqs,
-               summaries=(), disk_cols=None, split=None):
+               summaries=(), disk_cols=None, split=None, run_model=None):
     names_t = lst([key_term(tb, n) for n in names])
     ms = modes_term(mode)
     ev_terms = []
@@ -775,7 +829,7 @@ def build_case(tb, wallclock, events, rows, history, overall, per_trial, backend
                 for b in summaries])
     return ("{| c_wallclock := %s;\n c_events := %s;\n c_rows := %s;\n c_history := %s;\n c_tol := %s;\n"
             " c_overall := %s;\n c_trials := %s;\n c_backend := %s;\n c_bq := %s;\n c_tq := %s;\n c_table := %s;\n"
-            " c_eq := %s;\n c_sq := %s;\n c_disk := %s;\n c_split := %s |}" % (
+            " c_eq := %s;\n c_sq := %s;\n c_disk := %s;\n c_split := %s;\n c_run := %s |}" % (
                 blit(wallclock), lst(ev_terms), lst([dict_term(tb, r) for r in rows]), hist, q(rtol * mag),
                 istats_term(tb, overall),
                 lst(["(%s, %s)" % (zlit(t), istats_term(tb, s)) for t, s in per_trial.items()]),
@@ -783,7 +837,7 @@ def build_case(tb, wallclock, events, rows, history, overall, per_trial, backend
                 bq_t, tq_t, lst([dict_term(tb, r) for r in table]), eq_t, sq_t,
                 optlit(disk_cols, lambda cols: "(%s, %s)" % (lst([key_term(tb, c) for c in cols]),
                                                             lst([natlit(tb.tok(None))]))),
-                optlit(split, natlit)))
+                optlit(split, natlit), optlit(run_model, lambda rm: run_model_term(tb, rm))))
 
 
 SKIP_DISK = object()
@@ -1042,6 +1096,7 @@ def make_run_classes():
             self.scripts, self.chunks, self.outcomes, self.limit_attr = scripts, chunks, outcomes, limit_attr
             self.faults = dict(faults or {})  # injected faults: stop_all raises; the poll_at-th poll raises
             self.calls = 0
+            self.fired = []
             self.poll = 0
             self.stamp = 0.0
             self.limit = {}
@@ -1053,13 +1108,17 @@ def make_run_classes():
             self.limit[trial_id] = lim
 
         def stop_all(self):
+            if getattr(self, "order", None) is not None:
+                self.order.append("stop_all")
             if self.faults.get("stop_all"):
+                self.fired.append("stop_all")
                 raise ConnectionError("injected fault: backend unreachable in stop_all")
             super().stop_all()
 
         def _all_trial_results(self, trial_ids):
             self.calls += 1
             if self.faults.get("poll_at") == self.calls:
+                self.fired.append("poll")
                 raise ConnectionError("injected fault: backend unreachable in poll %d" % self.calls)
             out = []
             for tid in trial_ids:
@@ -1168,6 +1227,7 @@ def make_run_classes():
         def suggest(self, trial_id):
             self.n_suggest_calls += 1
             if self.suggest_fault_at == self.n_suggest_calls:
+                self.fault_fired = True
                 raise RuntimeError("injected fault: scheduler failed in suggest call %d" % self.n_suggest_calls)
             return self.inner.suggest(trial_id)
 
@@ -1205,9 +1265,18 @@ def make_run_classes():
     class Recorder(TunerCallback):
         def __init__(self):
             self.handed, self.statuses, self.loops = [], [], 0
+            self.log = []  # the loop as the Tuner.run model sees it: polls and trial starts, in order
 
         def on_fetch_status_results(self, trial_status_dict, new_results):
             self.handed.extend((int(t), dict(r)) for t, r in new_results)
+            self.log.append(("batch", {int(t): (st, dict(tr.config)) for t, (tr, st) in trial_status_dict.items()},
+                             [(int(t), dict(r)) for t, r in new_results]))
+
+        def on_start_trial(self, trial):
+            self.log.append(("started", int(trial.trial_id)))
+
+        def on_resume_trial(self, trial):
+            self.log.append(("started", int(trial.trial_id)))
 
         def on_trial_result(self, trial, status, result, decision):
             self.statuses.append(status)
@@ -1343,6 +1412,7 @@ def run_whole(ctx, spec):
         backend = cls.ScriptedBackend([[cast_result(r, spec.get("dtypes")) for r in sc] for sc in spec["scripts"]],
                                          spec["chunks"], spec["outcomes"], limit_attr, spec.get("faults"))
         store, rec = RecordingStore(add_wallclock_time=True), cls.Recorder()
+        store.order = backend.order = []
 
         def stop(status):
             return status.overall_metric_statistics.count >= spec["max_results"] or rec.loops >= spec["max_loops"]
@@ -1393,7 +1463,19 @@ def collect_run(ctx, spec, tuner, sched, backend, store, rec, summaries, run_err
     return dict(deliveries=deliveries, events=events, handed=list(rec.handed), history=list(ts.calls), rows=rows, df=df,
                 overall=overall, per_trial=per_trial, backend_cfgs=backend_cfgs, bq=bq, tq=tq, table=table, eqs=eqs,
                 stores=stores, n_delivered=n_delivered, meta_ok=meta_ok, summaries=summaries, run_error=run_error,
-                split=split)
+                split=split, run_model=None if split is not None else tuner_run_inputs(sched, backend, store, rec, run_error))
+
+
+def tuner_run_inputs(sched, backend, store, rec, run_error):
+    """inputs and observations for the Tuner.run model (tuner_run in model/Results.v)"""
+    order = list(getattr(store, "order", None) or [])
+    last_store = max([i for i, x in enumerate(order) if x == "store"], default=None)
+    end_order = [0 if x == "store" else 1 for i, x in enumerate(order) if x == "stop_all" or i == last_store]
+    steps = list(rec.log)
+    if "poll" in backend.fired or getattr(sched, "fault_fired", False):
+        steps.append(("fault",))
+    return dict(old=None, decisions=[d["decision"] for d in sched.delivered], steps=steps,
+                stop_fails="stop_all" in backend.fired, raised=run_error is not None, end_order=end_order)
 
 
 def run_resumed(ctx, spec):
@@ -1493,6 +1575,8 @@ def run_cases(ctx, replay, corpus_only=False):
             # the same experiment directory: what is read back afterwards must be the table of the LAST run only
             first = run_whole(ctx, dict(spec, rerun=None))
             obs = run_whole(ctx, dict(spec, rerun=None, **spec["rerun"]))
+            if obs.get("run_model") is not None:
+                obs["run_model"]["old"] = first["rows"]  # what results.csv.zip held before the second run
             ctx.h("run_rerun", "first run %s rows, second run %s" % (
                 "some" if first["rows"] else "no", "0 rows" if not obs["rows"] else "1 row" if len(obs["rows"]) == 1
                 else "several rows"))
@@ -1548,7 +1632,7 @@ def run_cases(ctx, replay, corpus_only=False):
                                 obs["backend_cfgs"], spec["names"], spec["mode"], obs["bq"], obs["tq"], obs["table"],
                                 obs["eqs"], summaries=obs["summaries"],
                                 disk_cols=None if obs["df"] is None else [str(c) for c in obs["df"].columns],
-                                split=split))
+                                split=split, run_model=obs.get("run_model")))
         meta.append(case)
         if len(obs["rows"]) >= 3 and not getattr(ctx, "_c17_run_sampled", False):
             ctx._c17_run_sampled = True
@@ -1649,7 +1733,8 @@ def seq_cases(ctx, replay):
     report_model_mismatches(ctx, "seq", terms, meta)
 
 
-PARTS = {32: "table read back from disk (csv_write / csv_read / columns)",
+PARTS = {64: "whole run (tuner_run: deliver_batch / run_body / finally block)",
+         32: "table read back from disk (csv_write / csv_read / columns)",
          16: "final summary of Tuner.run (tuner_final_summary)", 1: "rows (cb_run / make_row)", 2: "statistics (ts_run / stats_add)",
          4: "best trial (print_best / tuner_best_config)", 8: "best row (exp_best_config)"}
 
@@ -1668,7 +1753,7 @@ def report_model_mismatches(ctx, tag, terms, meta):
         try:
             bits = int(mk.split()[0].strip("()%Z"))
         except ValueError:
-            bits = 63
+            bits = 127
         parts = [v for b, v in PARTS.items() if bits & b]
         ctx.violation("correspondence", "model and implementation differ on: " + "; ".join(parts), case=meta[i],
                       failing_input=False, broken="correspondence chk_case (model/Results.v): " + "; ".join(parts))
